@@ -64,6 +64,7 @@ func checkRegisterTailInsert(c *Ctx, p *Prog, R *BusRoles, rule string) {
 // apply succeeded and otherwise the stored event.
 func checkUpcastCallers(c *Ctx, p *Prog, R *BusRoles, rule string) {
 	n := 0
+	callers := map[*ssa.Function]bool{}
 	for _, f := range p.FuncsIn(PkgBus) {
 		for _, b := range f.Blocks {
 			for _, in := range b.Instrs {
@@ -76,6 +77,7 @@ func checkUpcastCallers(c *Ctx, p *Prog, R *BusRoles, rule string) {
 					continue
 				}
 				n++
+				callers[f] = true
 				name := FuncDisplay(f)
 				var errEx *ssa.Extract
 				var resEx []*ssa.Extract
@@ -177,7 +179,27 @@ func checkUpcastCallers(c *Ctx, p *Prog, R *BusRoles, rule string) {
 			}
 		}
 	}
-	c.Floor(rule, "callers of apply", n, 2)
+	c.Floor(rule, "callers of apply", n, 1)
+	// every replay entry that promises upcast events reaches one of those callers
+	for _, en := range [][2]string{{"EventBus", "ReplayWithUpcast"}, {"", "SubscribeWithReplay"}} {
+		var root *ssa.Function
+		if en[0] != "" {
+			root = p.Method(PkgBus, en[0], en[1])
+		} else {
+			root = p.Func(PkgBus, en[1])
+		}
+		if root == nil {
+			c.Unresolved(rule, "UNRESOLVED-ANCHOR/"+en[1], en[1]+" not found")
+			continue
+		}
+		reaches := false
+		for f := range staticReach(p, root, PkgBus) {
+			if callers[f] {
+				reaches = true
+			}
+		}
+		c.Check(reaches, rule, en[1]+"/reaches-apply", p.Pos(root.Pos()), "the stored events pass through the upcast registry's apply", en[1]+" never reaches the upcast registry's apply: events are delivered in their stored version")
+	}
 }
 
 // checkTypedUpcastWrapper (C17.R5): the closure RegisterUpcast builds decodes into a
